@@ -392,7 +392,7 @@ class Check:
         cmd = [binary] + [str(a) for a in args]
         if mpi:
             cmd = ["mpirun", "--allow-run-as-root", "--oversubscribe", "-n", str(mpi)] + cmd
-        e = {"VERIF_SEED": self.seed, "VERIF_TIER": self.tier, "OMP_NUM_THREADS": 1}
+        e = {"VERIF_SEED": self.seed, "VERIF_TIER": self.tier, "OMP_NUM_THREADS": 1, "OMP_WAIT_POLICY": "passive"}
         e.update(env or {})
         rc, so, err = self.sh(cmd, env=e, timeout=timeout, stdout=out)
         if rc in ok_rc:
